@@ -261,7 +261,39 @@ theorem C14_yearly_counterexample : ¬ C14_yearly_statement := by
   revert this
   decide +kernel
 
+/-- the yearly shares of a closed record over the years it touches add up to its value (also
+through leap years) -/
+theorem yearly_shares_complete (v : Int) (st en : Date) (hy : st.y ≤ en.y) (hT : en.ord - st.ord + 1 ≠ 0) :
+    sumTo (fun i => yearlyShare [(v, some st, some en)] (st.y + i)) (en.y - st.y + 1) = v := by
+  have hT' : ((en.ord - st.ord + 1 : Int) : Rat) ≠ 0 := by exact_mod_cast hT
+  rcases Nat.eq_or_lt_of_le hy with heq | hlt
+  · have : en.y - st.y = 0 := by omega
+    rw [this]
+    simp only [sumTo, Nat.add_zero, zero_add]
+    have h1 : st.y ≤ st.y ∧ st.y ≤ en.y := ⟨le_refl _, hy⟩
+    have h2 : st.y = st.y ∧ en.y = st.y := ⟨rfl, heq.symm⟩
+    rw [share_closed, if_pos h1, if_pos h2]; simp
+  · obtain ⟨k, hk⟩ : ∃ k, en.y - st.y = k + 1 := ⟨en.y - st.y - 1, by omega⟩
+    rw [hk, sumTo, shares_partial v st en hlt hT k (by omega), share_closed]
+    have h1 : st.y ≤ st.y + (k + 1) ∧ st.y + (k + 1) ≤ en.y := by omega
+    have h2 : ¬ (st.y = st.y + (k + 1) ∧ en.y = st.y + (k + 1)) := by omega
+    have h3 : ¬ st.y = st.y + (k + 1) := by omega
+    have h4 : en.y = st.y + (k + 1) := by omega
+    rw [if_pos h1, if_neg h2, if_neg h3, if_pos h4]
+    have : (⟨st.y + k + 1, 1, 1⟩ : Date) = ⟨st.y + (k + 1), 1, 1⟩ := by congr 1
+    rw [this]
+    field_simp
+    push_cast
+    ring
+
 /-! ### non-vacuity -/
+
+/-- 731 kg over 2023-07-01 .. 2025-06-30 (through the leap year 2024): 184 + 366 + 181 -/
+example :
+    let r : Int × Option Date × Option Date := (731, some ⟨2023, 7, 1⟩, some ⟨2025, 6, 30⟩)
+    yearlyShare [r] 2023 = 184 ∧ yearlyShare [r] 2024 = 366 ∧ yearlyShare [r] 2025 = 181 ∧
+    (⟨2025, 6, 30⟩ : Date).ord - (⟨2023, 7, 1⟩ : Date).ord + 1 = 731 := by
+  decide +kernel
 
 example : GoodProgs ["P_A".toList, "unkept".toList, "P_Logs".toList, "A_1".toList] := by
   unfold GoodProgs; decide
